@@ -213,8 +213,11 @@ def population_case(ctx, rng, idx):
     ctx.case(('+'.join(codes), mode, cov_mode), True, sample=feats)
     seed = int(rng.integers(1, 2 ** 31))
     kw = {'covariates': cov_arg} if h.n_cov else {}
+    # one array for the free parameters, used for sampling and afterwards
+    # for the transform - as a caller would
+    theta = np.array(top[free], dtype=float)
     try:
-        eta = np.asarray(model.sample(top[free], n_samples=n, seed=seed,
+        eta = np.asarray(model.sample(theta, n_samples=n, seed=seed,
                                       **kw), dtype=float)
     except Exception as e:      # noqa
         ctx.violation_exc('sample_raises', e, {'case': feats}, feats)
@@ -248,7 +251,7 @@ def population_case(ctx, rng, idx):
         else:
             model.set_n_ids(n)
             psi = np.asarray(model.compute_individual_parameters(
-                top[free], eta, **({'covariates': cov} if h.n_cov else {})),
+                theta, eta, **({'covariates': cov} if h.n_cov else {})),
                 dtype=float)
     except Exception as e:      # noqa
         ctx.violation_exc('transform_raises', e, {'case': feats}, feats)
